@@ -36,6 +36,9 @@ var c19Points = []string{"emit.call", "send.lock", "send.send", "expand.enter", 
 
 func c19pick(rng *rand.Rand, xs ...int) int { return xs[rng.Intn(len(xs))] }
 
+// RaceCase: the free-running rounds are also executed under the race detector (./check, race pass)
+func (c19) RaceCase(c Case) bool { return len(c.Ops) == 1 && c.Ops[0][0] == "free" }
+
 func (c19) Gen(rng *rand.Rand, tier string, idx int) Case {
 	var c Case
 	strat := []string{"drop", "block", "expand", "expand", "expand"}[rng.Intn(5)]
